@@ -5,12 +5,9 @@
    Ratchet.v, Baseline.v (apply_baseline_comparison, update_baseline_from_results, check_step =
    runner.rs:330-392, histories), FailFast.v. The model is that of the tree WITH the repairs
    fixes/D09, D10, D12, D30, D08 (and D11 for the ratchet): keys are path_key of the result path
-   ([norm_key], one leading dot-slash stripped, backslash to slash, empty and dot to dot) and a
-   loaded baseline is re-keyed ([rekey], [view]). The code normalises twice on some routes and
-   path_key is not idempotent on paths with two leading dot-slash prefixes; the model normalises
-   once, so theorems that feed a written baseline back into a run carry the hypothesis
-   [stable_results R] (every result key is a fixed point of norm_key) and, for entries kept from
-   an older file, [ostable (view disk)] (see Check/Results.v). Before the repairs C09_update_idempotent,
+   ([norm_key]: backslash to slash, every leading dot-slash stripped, empty and dot spelled dot;
+   idempotent, Proofs_Check.norm_key_idem) and a loaded baseline is re-keyed ([rekey], [view]).
+   Before the repairs C09_update_idempotent,
    C09_modes_preserve_other_kind, C09_new_never_drops (without --baseline) and
    C09_unrecorded_always_fails (under fail-fast) were refuted by the faithful model and by the
    binary (witness histories in known_findings/C09.json, section fixed).
@@ -28,7 +25,6 @@ Open Scope N_scope.
    is still reported Failed or a warning exists under warnings-as-errors (and warn-only is off) *)
 Theorem C09_roundtrip :
   forall (R : list result) (dirs : list key) (disk0 : option baseline) (we : bool) (fl : flags),
-  stable_results R ->
   f_baseline fl = true -> f_update fl = None ->
   let disk1 := o_disk (check_step (update_flags UAll we) R dirs disk0) in
   let out := check_step fl R dirs disk1 in
@@ -92,7 +88,6 @@ Print Assumptions C09_modes_preserve_other_kind.
    first and / or the second update loads the existing baseline *)
 Theorem C09_update_idempotent :
   forall m R dirs disk0 we we',
-  stable_results R -> ostable (view disk0) ->
   let d1 := o_disk (check_step (update_flags m we) R dirs disk0) in
   let d2 := o_disk (check_step (update_flags m we') R dirs d1) in
   forall k, olookup k d2 = olookup k d1.
@@ -114,12 +109,13 @@ Theorem C09_history_inv :
 Proof. exact history_inv. Qed.
 Print Assumptions C09_history_inv.
 
-(* spelling independence of the key (fix D08): a path without a leading dot-slash, the same path
-   behind one "./" and behind one ".\" have one key; hence the three spellings are grandfathered
-   by the same entry *)
+(* spelling independence of the key (fix D08): a path, the same path behind "./" and behind
+   ".\" have one key, for every path; and the key function is idempotent, so keys stay fixed
+   however often the code normalises them *)
 Theorem C09_key_spelling_invariant :
-  forall p, strip_dot p = p ->
-  norm_key (46 :: 47 :: p) = norm_key p /\ norm_key (46 :: 92 :: p) = norm_key p.
+  forall p,
+  norm_key (46 :: 47 :: p) = norm_key p /\ norm_key (46 :: 92 :: p) = norm_key p /\
+  norm_key (norm_key p) = norm_key p.
 Proof. exact key_spelling_invariant. Qed.
 Print Assumptions C09_key_spelling_invariant.
 
@@ -173,11 +169,9 @@ Example C09_key_spelling_nonvacuous :
 Proof. vm_compute. split; [reflexivity | discriminate]. Qed.
 Print Assumptions C09_key_spelling_nonvacuous.
 
-(* the hypotheses stable_results / ostable are satisfiable and exclude only doubled prefixes *)
-Example C09_stable_nonvacuous :
-  stable_results [fa; fb; wc; dF; dM] /\ stable_keyb (norm_key [46;47;46;47;97]) = false.
-Proof.
-  split; [|vm_compute; reflexivity].
-  intros r [H|[H|[H|[H|[H|[]]]]]]; subst r; vm_compute; reflexivity.
-Qed.
-Print Assumptions C09_stable_nonvacuous.
+(* doubled and mixed prefixes: one key *)
+Example C09_key_doubled_prefix :
+  norm_key [46;47;46;92;46;47;97] = [97] /\ norm_key [46;92] = [46] /\ norm_key [] = [46] /\
+  norm_key [100;92;46;47;97] = [100;47;46;47;97].
+Proof. vm_compute. repeat split; reflexivity. Qed.
+Print Assumptions C09_key_doubled_prefix.
